@@ -7,7 +7,7 @@ expected value at the documented place (top level in the owning mode, table_prop
 """
 import itertools
 
-from vf.run import parse
+from vf.run import entities, parse
 from vf.util import ddiff, digest, short
 
 LEVEL = "exploration"
@@ -16,7 +16,7 @@ RULE = ("cases = (generated table with one of 9 last-column shapes, subset of 1.
         "order, mode in {owning mode, sql}): every single clause x every last-column shape x both modes exhaustively, every ordered "
         "pair of compatible clauses, then seeded random subsets/orders; clause values are varied (formats, literals, numbers, "
         "column lists). Non-trivial = every case (each compares a with/without pair); distinct = distinct (DDL, mode).")
-RULE += (" Added after seeded defects: identifier-valued clause slots take tricky-vocabulary names, delimited operands and (after TABLESPACE) keyword-shaped words; single-class STORED AS INPUTFORMAT / OUTPUTFORMAT; the clauses the pinned tree reads after a LIKE body (CREATE TABLE t LIKE s / (LIKE s)) are also generated there; ORGANIZE BY COLUMN, CLUSTERED BY col without parentheses, an MSSQL body whose key constraint carries its own WITH (...) ON [filegroup], 0 and 1 as numeric operands.")
+RULE += (" Added after seeded defects: identifier-valued clause slots take tricky-vocabulary names, delimited operands and (after TABLESPACE) keyword-shaped words; single-class STORED AS INPUTFORMAT / OUTPUTFORMAT; the clauses the pinned tree reads after a LIKE body (CREATE TABLE t LIKE s / (LIKE s)) are also generated there; ORGANIZE BY COLUMN, CLUSTERED BY col without parentheses, an MSSQL body whose key constraint carries its own WITH (...) ON [filegroup], 0 and 1 as numeric operands, trailing comments (also with an apostrophe) on clause lines.")
 ASSUMPTIONS = ["a LIKE body stands where the column list would be: clauses are generated after it only where the pinned tree reads them (deny-list NOT_AFTER_LIKE, plain operands)",
                "only clause combinations compatible within one dialect; order restricted where the dialect's own grammar fixes it (hql, oracle, mssql, bigquery, postgres, ibm_db2)",
                "calibrated placements: partitioned_by / partition_by / comment / tablespace are common fields (top level in both modes); snowflake retention/tracking options and spark USING live in table_properties in both modes",
@@ -47,7 +47,7 @@ def catalogue(rng):
     from vf.gen import vocab
     tricky = vocab.tricky_names()
     delim = rng.choice(['"USERSPACE1"', '"Ts 1"', "[FG_2]", "`bt`", '"delta"'])      # delimited operands are reported with their delimiters (calibrated in every slot)
-    ts = rng.choice(["users", "TS_1", "data01", tricky[rng.randrange(len(tricky))], tricky[rng.randrange(len(tricky))], delim])
+    ts = rng.choice(["users", "TS_1", "data01", "USER#SP1", "ts$1", "TS#2", tricky[rng.randrange(len(tricky))], tricky[rng.randrange(len(tricky))], delim])
     ts_ix = rng.choice(['"IDXSPACE1"', "[ix_fg]"]) if ts[0] in '"[`' else ts + "_ix"
     # after TABLESPACE every word except IF is a name on the pinned tree (calibrated), keyword-shaped ones included
     ts_ora = rng.choice([ts, ts] + [k.lower() for k in vocab.grammar_keywords() if k != "IF"][rng.randrange(3)::3][:40])
@@ -151,9 +151,18 @@ def ok_after_like(d, c):
     return True
 
 
-def build(last, clauses, body=None):
+def build(last, clauses, body=None, comments=None):
     base = LIKE_BODIES[body] if body else "CREATE TABLE s.t (\n  a int,\n  %s\n)" % last
-    return base + ";\n", base + "\n" + "\n".join(c["text"] for c in clauses) + ";\n"
+    lines = [c["text"] + ((" " + comments[i]) if comments and i < len(comments) and comments[i] else "") for i, c in enumerate(clauses)]
+    if comments and lines and comments[len(lines) - 1] and comments[len(lines) - 1].startswith("--"):
+        # the terminator has to come before a trailing '--' comment of the last clause line
+        last_c = comments[len(lines) - 1]
+        lines[-1] = clauses[-1]["text"] + "; " + last_c
+        return base + ";\n", base + "\n" + "\n".join(lines) + "\n"
+    return base + ";\n", base + "\n" + "\n".join(lines) + ";\n"
+
+
+CLAUSE_COMMENTS = ["-- keep", "-- legacy setting (see wiki)", "/* note */", "-- don't touch", "-- customer's choice"]      # (one apostrophe: two would pair up into a literal)
 
 
 def norm_val(key, v):
@@ -165,7 +174,7 @@ def norm_val(key, v):
 def check_case(ctx, case):
     ctx.evaluated(2)
     mode, clauses = case["mode"], case["clauses"]
-    base_ddl, full_ddl = build(case["last"], clauses, case.get("body"))
+    base_ddl, full_ddl = build(case["last"], clauses, case.get("body"), case.get("comments"))
     if case.get("body"):
         ctx.obs["like_body_cases"] += 1
     ctx.nontrivial_case(digest(full_ddl + mode))
@@ -180,10 +189,11 @@ def check_case(ctx, case):
     if r[0] != "ok":
         ctx.violation("exception", dict(case, ddl=full_ddl), {"exception": r[1], "message": r[2]})
         return
-    if len(r[1]) != 1 or "table_name" not in r[1][0]:
+    r_ents = entities(r[1])          # (a trailing comment on a clause line is reported in the separate comments entry)
+    if len(r_ents) != 1 or "table_name" not in r_ents[0]:
         ctx.violation("table_lost_or_split", dict(case, ddl=full_ddl), {"result": short(r[1], 300)})
         return
-    bt, rt = b[1][0], r[1][0]
+    bt, rt = b[1][0], r_ents[0]
     top_exp, prop_exp = {}, {}
     for c in clauses:
         for k, v in c["exp"].items():
@@ -271,6 +281,11 @@ def run_shard(ctx):
             kept = [c for c in clauses if ok_after_like(d, c)]
             if kept:
                 case = dict(case, clauses=kept, body=rng.choice(sorted(LIKE_BODIES)), gen="random_like_body")
+        if j % 4 == 1:
+            # a trailing comment on clause lines (an apostrophe in its text only on lines without a literal: the pinned comment splitter is
+            # not quote-aware on lines that hold one)
+            case["comments"] = [(rng.choice(CLAUSE_COMMENTS[:3] if "'" in c["text"] or '"' in c["text"] else CLAUSE_COMMENTS) if rng.random() < 0.6 else None)
+                                for c in case["clauses"]]
         check_case(ctx, case)
         if j == 0:
-            ctx.sample({"ddl": build(case["last"], clauses)[1], "mode": case["mode"]})
+            ctx.sample({"ddl": build(case["last"], case["clauses"], case.get("body"), case.get("comments"))[1], "mode": case["mode"]})
